@@ -109,6 +109,7 @@ func C04(r *report.Report, tier string) {
 			r.Exhaustive = false
 			break
 		}
+		h.Prefer = "C04"
 		s := ExploreAll(r, "nfs.conc", h, bound, vrt.PUnlock, false)
 		r.Sample(map[string]interface{}{"harness": h.Name, "executions": s.Execs})
 	}
